@@ -143,6 +143,7 @@ def run(sc):
   pol = seams.policy_from_spec({"default": [sc["sched"], 0]})
   viols = []
   sleeping = core.sleep_enabled(m)
+  exact_mode = int(m.opt.broadphase) == 0
   S1 = None
   if sc.get("solo"):
     S1 = mk(1, scen.ample_caps(mjm, 1))
@@ -179,12 +180,35 @@ def run(sc):
     differs = any(not core.bits_equal(sa["qpos"][w], sb["qpos"][w]) for w in range(nworld) if w != t)
     if int(va["nefc"]) > 0 and differs:
       stats["nontrivial"].append(f"a|{scen.opt_key(sc['model'])}|{sc['sched']}|nw{nworld}|con{scen.bucket(va['contact.count'][0])}|sleep{int(sleeping)}|nr{int(bool(sc.get('neighbour_reset')))}|{sc['caps']}")
-    dd = core.diff_views(va, vb)
-    if dd:
-      viols.append({"class": {"oracle": "content_independence_bit_exact", "field": dd[0][0], "sched": sc["sched"]},
-                    "detail": {"step": k + 1, "target": t, "fields": [x[0] for x in dd][:10], "first": dd[0][1], "nworld": nworld}})
-      ok = False
-      break
+    if exact_mode:
+      dd = core.diff_views(va, vb)
+      if dd:
+        viols.append({"class": {"oracle": "content_independence_bit_exact", "field": dd[0][0], "sched": sc["sched"]},
+                      "detail": {"step": k + 1, "target": t, "fields": [x[0] for x in dd][:10], "first": dd[0][1], "nworld": nworld}})
+        ok = False
+        break
+    else:
+      # sweep-and-prune broadphase: the position of this world's pairs in the strided work list depends on how many candidates
+      # the other worlds have, so its contacts can be listed in another order -> keyed-multiset comparison with round-off
+      # tolerance, one step at a time (B's target is re-synchronised from A afterwards)
+      ca_, cb_ = core.canon_view(sa, t), core.canon_view(sb, t)
+      lim = (int(va["overflow"]) | int(vb["overflow"])) & (core.OV_ITER | core.OV_LS)
+      skip = {"solver_niter", "overflow", "efc.state", "efc.D", "tree_asleep", "tree_awake", "body_awake", "tree_island", "ntree_awake", "nbody_awake", "nv_awake"}
+      if lim:
+        skip |= {"qacc", "qfrc_constraint", "efc.force", "qacc_warmstart", "qvel", "qpos", "act", "cacc", "cfrc_int", "cfrc_ext", "sensordata", "act_dot", "history", "energy"}
+        stats["skipped"]["solver_budget_hit"] = stats["skipped"].get("solver_budget_hit", 0) + 1
+      bad = core.tol_diff(ca_, cb_, core.STATE_LEVEL, skip=skip, exact_int={"ne", "nf", "nl", "nefc", "contact.count", "contact.geom", "efc.type", "efc.id"}, stats=stats, tag="sap")
+      stats["sets"].setdefault("sap_bit_identical", []).append(str(not core.diff_views(va, vb)))
+      if bad:
+        viols.append({"class": {"oracle": "content_independence_sap_tolerance", "field": bad[0][0], "sched": sc["sched"]},
+                      "detail": {"step": k + 1, "target": t, "fields": [x[0] for x in bad][:10], "first": bad[0][1], "nworld": nworld}})
+        ok = False
+        break
+      act = np.zeros(nworld, dtype=bool)
+      act[t] = True
+      core.set_istate(mjm, m, B, core.get_istate(mjm, m, A), active=act)
+      if sleeping:
+        B.tree_asleep.numpy()[t] = A.tree_asleep.numpy()[t]
     # ---- clause (b): the same step alone
     if S1 is not None and (not sleeping) and k % 3 == 0:
       core.set_istate(mjm, m, S1, pre_state)
@@ -206,20 +230,11 @@ def run(sc):
         if lim:
           stats["skipped"]["solver_budget_hit"] = stats["skipped"].get("solver_budget_hit", 0) + 1
         else:
-          worst = 0.0
-          for f in (["qpos", "qvel", "act"] if flip else TOL_FIELDS):
-            if f in va and va[f].size:
-              x, y = np.asarray(va[f], dtype=np.float64), np.asarray(v1[f], dtype=np.float64)
-              if not (np.all(np.isfinite(x)) and np.all(np.isfinite(y))):
-                continue
-              tol = 1e-5 + (2e-3 if f in ("qpos", "qvel", "act", "xpos") else 2e-2) * max(1e-3, float(np.max(np.abs(y))))
-              err = float(np.max(np.abs(x - y))) if x.size else 0.0
-              worst = max(worst, err / tol)
-              if err > tol:
-                bad = ("float", f, err, tol)
-                break
+          fields = ["qpos", "qvel", "act"] if flip else TOL_FIELDS
+          tb = core.tol_diff(va, v1, {"qpos", "xpos"}, rtol_state=2e-3, rtol_force=2e-2, skip=set(va) - set(fields), stats=stats, tag="solo")
+          if tb:
+            bad = ("float", tb[0][0], tb[0][1].get("err"), tb[0][1].get("tol"))
           stats["sets"].setdefault("solo_bit_identical", []).append(str(bool(all(core.bits_equal(va[f], v1[f]) for f in ("qpos", "qvel", "qacc")))))
-          stats["faults"]["solo_worst_err_over_tol_x1000"] = max(stats["faults"].get("solo_worst_err_over_tol_x1000", 0), int(worst * 1000))
           if int(va["nefc"]) > 0:
             stats["nontrivial"].append(f"b|{scen.opt_key(sc['model'])}|nw{nworld}|pos{t}|nefc{scen.bucket(va['nefc'])}")
         if bad is not None:
